@@ -509,7 +509,50 @@ func (c *Chain) ConsensusLog() []string {
 }
 
 // SnapshotTo copies the data directory (kill -9 model: what has been written stays).
-func (c *Chain) SnapshotTo(dst string) error { return CopyDir(c.Dir, dst) }
+// SnapshotTo copies the data directory of the LIVE application (the kill -9 model). goleveldb compacts in background
+// goroutines the harness does not schedule: a file may appear or vanish while the copy walks the directory, and such a
+// torn copy is an artefact of copying, not a crash image. The copy is therefore repeated until the directory listing
+// (names, sizes, modification times) is the same before and after it.
+func (c *Chain) SnapshotTo(dst string) error {
+	var last error
+	for try := 0; try < 8; try++ {
+		if try > 0 {
+			SnapshotRetries++
+			_ = os.RemoveAll(dst)
+			time.Sleep(time.Duration(try*5) * time.Millisecond)
+		}
+		before, err1 := dirListing(c.Dir)
+		err := CopyDir(c.Dir, dst)
+		after, err2 := dirListing(c.Dir)
+		if err == nil && err1 == nil && err2 == nil && before == after {
+			return nil
+		}
+		last = fmt.Errorf("unstable snapshot of %s: copy error %v, listing changed %v", c.Dir, err, before != after)
+	}
+	return last
+}
+
+// SnapshotError: the harness could not take a stable copy (not a statement about the application).
+type SnapshotError struct{ Err error }
+
+func (e *SnapshotError) Error() string { return e.Err.Error() }
+
+// SnapshotRetries counts repeated copies (reported in evidence by the checks that restart).
+var SnapshotRetries int
+
+func dirListing(dir string) (string, error) {
+	var sb strings.Builder
+	err := filepath.Walk(dir, func(p string, info os.FileInfo, err error) error {
+		if err != nil {
+			return err
+		}
+		if !info.IsDir() {
+			fmt.Fprintf(&sb, "%s %d %d\n", p, info.Size(), info.ModTime().UnixNano())
+		}
+		return nil
+	})
+	return sb.String(), err
+}
 
 func CopyDir(src, dst string) error {
 	return filepath.Walk(src, func(p string, info os.FileInfo, err error) error {
@@ -538,7 +581,7 @@ func CopyDir(src, dst string) error {
 // Tendermint / the wallets, not to the application.
 func (c *Chain) Reopen(newDir string, closeOld bool) (*Chain, error) {
 	if err := c.SnapshotTo(newDir); err != nil {
-		return nil, err
+		return nil, &SnapshotError{err}
 	}
 	if closeOld {
 		c.Close()
